@@ -286,7 +286,9 @@ func ruleStickyLookup(c *Ctx, rule string) {
 			})
 			c.ob(rule, fn, "only the ranges without a held ip are allocated", al[0], rng != raw && isAppendOfRaw, "the range argument is the list built from ranges whose lookup entry is nil, not the raw request")
 			// the nil test that builds the list
-			nilT := guardEdges(fn, predEq(func(v ssa.Value) bool { return dependsOn(v, func(x ssa.Value) bool { return x == res }) && isPtrTo(v, "FloatingIPInfo") }, isNilConst))
+			nilT := guardEdges(fn, predEq(func(v ssa.Value) bool {
+				return dependsOn(v, func(x ssa.Value) bool { return x == res }) && isPtrTo(v, "FloatingIPInfo")
+			}, isNilConst))
 			c.ob(rule, fn, "a range is queued for allocation only if its lookup entry is nil", al[0], len(nilT) > 0 && appendGuarded(fn, rng, nilT), "the append to the unallocated-range list is reachable only through the `ipInfos[i] == nil` edge")
 			// reused ips only get their attributes refreshed, under the same key
 			for _, u := range calls(fn, "IPAM).UpdateAttr") {
@@ -395,7 +397,10 @@ func ruleStickyLookup(c *Ctx, rule string) {
 				}
 			}
 			has := guardEdges(fn, predCall("sets.String).Has", func(call *ssa.Call) bool {
-				return call.Call.Args[0] == set && dependsOn(call.Call.Args[1], func(x ssa.Value) bool { cl, i := callOf(x); return cl != nil && ssa.Instruction(cl) == ssa.Instruction(ns[0].(*ssa.Call)) && i == 0 })
+				return call.Call.Args[0] == set && dependsOn(call.Call.Args[1], func(x ssa.Value) bool {
+					cl, i := callOf(x)
+					return cl != nil && ssa.Instruction(cl) == ssa.Instruction(ns[0].(*ssa.Call)) && i == 0
+				})
 			}))
 			// appends to the filtered list: stores of a Node into an append operand
 			n := 0
